@@ -30,7 +30,9 @@ type World struct {
 	Bun    *bun.DB
 	Driver *driver.Driver
 	Sys    *systemcontroller.DefaultController
-	Hook   pgsim.CallHook
+	// MachineParser / InterpreterParser are the parsers handed to Sys (cached or not, see Options).
+	MachineParser, InterpreterParser ledgercontroller.NumscriptParser
+	Hook                             pgsim.CallHook
 	// Listener receives the events of every ledger controller created through Sys.
 	Listener ledgercontroller.Listener
 	// Span, when set, is called at the start of every tracing span of the ledger store
@@ -67,8 +69,20 @@ func registerModels(db *bun.DB) {
 	)
 }
 
+// Options of AttachWith.
+type Options struct {
+	// NumscriptCacheMaxCount, when not 0, wraps the machine parser and the interpreter
+	// parser in the LFU cache of compiled scripts (ledgercontroller.NewCachedNumscriptParser)
+	// exactly as system.NewFXModule does with ModuleConfiguration.NSCacheConfiguration
+	// (`serve --numscript-cache-max-count`, default 1024). 0 = no cache (each Parse compiles).
+	NumscriptCacheMaxCount uint
+}
+
 // Attach builds the Go stack over an existing pgsim database (used after Clone: "restart").
-func Attach(pg *pgsim.DB) *World {
+func Attach(pg *pgsim.DB) *World { return AttachWith(pg, Options{}) }
+
+// AttachWith is Attach with the given options.
+func AttachWith(pg *pgsim.DB, o Options) *World {
 	w := &World{PG: pg}
 	w.SQL = sql.OpenDB(&pgsim.Connector{DB: pg, Hook: func(ctx context.Context, s *pgsim.Session, op, q string) error {
 		if h := w.Hook; h != nil {
@@ -84,16 +98,29 @@ func Attach(pg *pgsim.DB) *World {
 		bucket.NewDefaultFactory(),
 		systemstore.NewStoreFactory(),
 	)
+	// the parsers, as internal/controller/system/module.go builds them (NumscriptInterpreter
+	// false: the default parser is the machine parser)
+	var (
+		defaultParser     ledgercontroller.NumscriptParser = ledgercontroller.NewDefaultNumscriptParser()
+		machineParser     ledgercontroller.NumscriptParser = ledgercontroller.NewDefaultNumscriptParser()
+		interpreterParser ledgercontroller.NumscriptParser = ledgercontroller.NewInterpreterNumscriptParser(nil)
+	)
+	if o.NumscriptCacheMaxCount != 0 {
+		machineParser = ledgercontroller.NewCachedNumscriptParser(machineParser, ledgercontroller.CacheConfiguration{
+			MaxCount: o.NumscriptCacheMaxCount,
+		})
+		interpreterParser = ledgercontroller.NewCachedNumscriptParser(interpreterParser, ledgercontroller.CacheConfiguration{
+			MaxCount: o.NumscriptCacheMaxCount,
+		})
+		defaultParser = machineParser
+	}
+	w.MachineParser, w.InterpreterParser = machineParser, interpreterParser
 	w.Sys = systemcontroller.NewDefaultController(
 		systemcontroller.NewControllerStorageDriverAdapter(w.Driver, systemstore.New(w.Bun)),
 		listenerProxy{w},
 		nil,
 		systemcontroller.WithEnableFeatures(true),
-		systemcontroller.WithParser(
-			ledgercontroller.NewDefaultNumscriptParser(),
-			ledgercontroller.NewDefaultNumscriptParser(),
-			ledgercontroller.NewInterpreterNumscriptParser(nil),
-		),
+		systemcontroller.WithParser(defaultParser, machineParser, interpreterParser),
 	)
 	return w
 }
